@@ -157,8 +157,12 @@ def action_legal(env: Any, s: Any, a: Any) -> bool:
     return bool(all(lg[i, a[i]] for i in range(a.shape[0])))
 
 
-def _beaten(a: np.ndarray, pos0: np.ndarray, pos1: np.ndarray, i: int) -> bool:
-    """Another agent with a higher id ended on the cell agent i asked for."""
+def _beaten(s: Any, a: np.ndarray, pos1: np.ndarray, i: int) -> bool:
+    """Agent i made a move that is legal on its own (collisions only happen among those) and an agent with a
+    higher id took the cell."""
+    g0, pos0 = np.asarray(s.grid).astype(int), _pos(s)
+    if not _move_ok(g0, i, pos0[i], bool(_connected(s)[i]), int(a[i])):
+        return False
     dest = (int(pos0[i][0]) + MOVES[int(a[i])][0], int(pos0[i][1]) + MOVES[int(a[i])][1])
     return any(j > i and tuple(pos1[j]) == dest and tuple(pos0[j]) != dest for j in range(len(a)))
 
@@ -169,7 +173,7 @@ def check_reaction(env: Any, s: Any, a: Any, s2: Any, ts: Any, masked_in: bool) 
     joint action must trigger it for at least one."""
     a = np.asarray(a).astype(int)
     p0, p1 = _pos(s), _pos(s2)
-    ignored = [i for i in range(len(a)) if a[i] != 0 and (p0[i] == p1[i]).all() and not _beaten(a, p0, p1, i)]
+    ignored = [i for i in range(len(a)) if a[i] != 0 and (p0[i] == p1[i]).all() and not _beaten(s, a, p1, i)]
     if masked_in and ignored:
         return [f"masked-in-move-ignored: joint action {a.tolist()} is masked-in but agents {ignored} did not move "
                 "and no higher-id agent took their cell"]
@@ -390,7 +394,6 @@ def check_step(env: Any, s: Any, a: Any, s2: Any, ts: Any) -> List[str]:
     if r is not None and not np.allclose(np.asarray(ts.reward, np.float64), r, rtol=1e-5, atol=1e-6):
         out.append(f"step-reward: expected {r.tolist()} got {np.asarray(ts.reward).tolist()}")
     # termination / discount, from the predicted successor
-    grid_ok = True
     done = np.zeros(n, bool)
     for i in range(n):
         can = any(_move_ok(exp_grid, i, exp_pos[i], bool(con1[i]), m) for m in (1, 2, 3, 4))
@@ -400,7 +403,7 @@ def check_step(env: Any, s: Any, a: Any, s2: Any, ts: Any) -> List[str]:
         out.append(f"step-termination: expected last={last} (done={done.tolist()}, step {int(s.step_count) + 1}/"
                    f"{int(env.time_limit)}) got step_type={int(ts.step_type)}")
     exp_disc = np.zeros(n) if last else 1.0 - done.astype(np.float64)
-    if grid_ok and not np.allclose(np.asarray(ts.discount, np.float64), exp_disc, atol=1e-6):
+    if not np.allclose(np.asarray(ts.discount, np.float64), exp_disc, atol=1e-6):
         out.append(f"step-discount: expected {exp_disc.tolist()} got {np.asarray(ts.discount).tolist()}")
     return out
 
